@@ -57,6 +57,28 @@ def gen_cases(rng, tier):
             ln = rng.randint(left - x0 + 1, len(row) - x0)
             cs, args = px_case(kind, mode, hq, False, color, has_mask, x0, ln, row, extra)
             cases.append((cs, args + [-777, g, left]))   # trailing tag: group id, target index (ignored by the runners)
+    # per-lane selects (Overlay, HardLight, Darken, Lighten, Difference, ... pick a formula branch or a min/max per pixel): the target
+    # at every lane of a 16-wide low-precision batch, its neighbours on the other side of the fork (dark against bright)
+    for g in range(128 if tier == "quick" else 1280):
+        mode = [15, 20, 15, 20, 16, 17, 22, 23][(g // 16) % 8]
+        lane = g % 16
+        color = rand_color(rng)
+        dark = rng.random() < 0.5
+        a_t = rng.choice([255, 255, 200, 128])
+        tv = rng.randint(0, a_t // 3) if dark else rng.randint(2 * a_t // 3, a_t)
+        tgt = (tv, rng.choice([tv, a_t - tv]), tv, a_t, 255)
+        def other():
+            a_o = rng.choice([255, 255, 160])
+            ov = rng.randint(2 * a_o // 3, a_o) if dark else rng.randint(0, a_o // 3)
+            return (ov, ov, rng.choice([ov, a_o - ov]), a_o, 255)
+        for v in range(4):
+            x0 = rng.choice([0, 0, 3, 16])
+            left = x0 + lane + 16 * rng.choice([0, 0, 1])
+            right = rng.randint(2, 20)
+            row = [other() if v else tgt for _ in range(left)] + [tgt] + [other() if v else tgt for _ in range(right)]
+            ln = len(row) - x0 if v % 2 == 0 else left - x0 + 1 + rng.randint(0, right)
+            cs, args = px_case(0, mode, False, False, color, False, x0, ln, row, [])
+            cases.append((cs, args + [-777, 7 * 10**8 + g, left]))
     # float colours whose premultiplied channel times 255 is an exact tie k + 1/2 in binary32 (8-bit colours never are):
     # the rounding of the store must not depend on whether the pixel falls in a full batch or in the tail of the span
     ties = tie_channels()
@@ -211,3 +233,47 @@ def nontrivial_tag(suite, args, out):
     if suite == "cs_span":
         return "cs-span:%d" % args[0]
     return c08.nontrivial_tag(suite, args[:-3] if len(args) >= 3 and args[-3] == -777 else args, out)
+
+
+def search(ctx, vp, known):
+    """An obligation broke (typically the px correspondence) and no metamorphic group caught it: take the pixels on which
+    the implementation left the model and look for a dependence on the neighbours directly - redraw the same pixel alone,
+    with all neighbours replaced by copies of itself, and with the span start moved - and compare the value written."""
+    tried = 0
+    for m in getattr(ctx, "mismatches", []):
+        if m["suite"] != "px" or tried >= 60:
+            continue
+        a = m["args"][:-3] if len(m["args"]) >= 3 and m["args"][-3] == -777 else m["args"]
+        c = decode(a)
+        if c["kind"] not in (0, 1):
+            continue
+        io = decode_out(m["impl"], c["w"]) if m["impl"] and m["impl"][0].isdigit() else None
+        mo = decode_out(m["model"], c["w"]) if m["model"] and m["model"][0].isdigit() else None
+        if not io or not mo:
+            continue
+        for j in range(c["x0"], min(c["w"], c["x0"] + c["len"])):
+            if io[j] == mo[j] or tried >= 60:
+                continue
+            tried += 1
+            tgt = c["row"][j]
+            variants = []
+            # the pixel alone in its span
+            variants.append(px_case(c["kind"], c["mode"], c["hq"], c["aa"], c["color"], c["has_mask"], j, 1, c["row"], c["extra"]))
+            # every neighbour a copy of the target
+            variants.append(px_case(c["kind"], c["mode"], c["hq"], c["aa"], c["color"], c["has_mask"], c["x0"], c["len"], [tgt] * c["w"], c["extra"]))
+            # the span starting one pixel later / at the pixel itself
+            if j > c["x0"]:
+                variants.append(px_case(c["kind"], c["mode"], c["hq"], c["aa"], c["color"], c["has_mask"], c["x0"] + 1, c["len"] - 1, c["row"], c["extra"]))
+                variants.append(px_case(c["kind"], c["mode"], c["hq"], c["aa"], c["color"], c["has_mask"], j, c["x0"] + c["len"] - j, c["row"], c["extra"]))
+            lines = [vp.case_line(s_, a_) for s_, a_ in variants]
+            outs = vp.run_lines(vp.harness_exe(m["profile"]), lines, shards=1)
+            for (s_, a_), o in zip(variants, outs):
+                vo = decode_out(o, c["w"]) if o and o[0].isdigit() else None
+                if vo and vo[j] != io[j]:
+                    what = ("pixel %d is written as %s in this row and as %s when the same pixel (same destination, mask, paint, mode) is drawn "
+                            "with other neighbours / another span start" % (j, io[j], vo[j]))
+                    if known_class("px", a, m["impl"], what):
+                        continue
+                    return {"kind": "property-group", "profile": m["profile"], "suite": "px", "args": a, "impl": m["impl"], "what": what,
+                            "companion": {"suite": s_, "args": a_, "impl": o}, "found_by": "search after broken obligation"}
+    return None
